@@ -7,6 +7,53 @@ use ckb_network::{bytes::Bytes as P2pBytes, PeerIndex, SupportProtocols};
 use ckb_types::{packed, prelude::*};
 use serde_json::{json, Value};
 use std::io::Write;
+use std::sync::{Arc, Mutex};
+
+/// Write-level observation (trace file `<out>.w`, validated by Trace_Writes): while an event runs, the storage
+/// hook records, right before every write, its label, whether the matched-blocks lock is held, and the
+/// persistent state read back from the store (= the state the previous write left).
+pub struct WCtx {
+    storage: crate::storage::Storage,
+    peers: Arc<crate::protocols::Peers>,
+    chain: *const SimChain,
+    log: Vec<(String, bool, Value)>,
+}
+unsafe impl Send for WCtx {}
+pub static WCTX: Mutex<Option<WCtx>> = Mutex::new(None);
+pub static WOUT: Mutex<Option<Box<dyn Write + Send>>> = Mutex::new(None);
+
+/// Opens the write-level trace file and installs the observing hook (once per process).
+pub fn wlog_enable(path: &str) {
+    let f = std::io::BufWriter::new(std::fs::File::create(path).expect("open write-level trace"));
+    *WOUT.lock().unwrap() = Some(Box::new(f));
+    crate::verif_hooks::set(Some(Arc::new(|kind: &'static str, label: &str| {
+        if kind != "write" {
+            return;
+        }
+        let mut g = WCTX.lock().unwrap_or_else(|e| e.into_inner());
+        if let Some(ctx) = g.as_mut() {
+            let (locked, st) = project::write_point_state(&ctx.storage, &ctx.peers, unsafe { &*ctx.chain });
+            ctx.log.push((label.to_string(), locked, st));
+        }
+    })));
+}
+
+pub fn wlog_finish() {
+    if let Some(mut w) = WOUT.lock().unwrap().take() {
+        w.flush().ok();
+        crate::verif_hooks::set(None);
+    }
+}
+
+fn wlog_on() -> bool {
+    WOUT.lock().unwrap().is_some()
+}
+
+fn wemit(rec: &Value) {
+    if let Some(w) = WOUT.lock().unwrap().as_mut() {
+        writeln!(w, "{}", rec).expect("write w-trace");
+    }
+}
 
 pub struct Sim {
     pub chain: SimChain,
@@ -26,6 +73,8 @@ pub struct Sim {
     pub last_bans: Vec<PeerIndex>,
     pub crashed: bool,
     pub dead: bool,
+    /// the state logged last (the state the next event starts from)
+    pub last_state: Value,
 }
 
 impl Sim {
@@ -73,6 +122,14 @@ impl Sim {
 
     pub fn emit(&mut self, mut rec: Value) {
         rec["sc"] = json!(self.scenario);
+        if wlog_on() {
+            if rec["st"].is_object() {
+                self.last_state = rec["st"].clone();
+            }
+            if rec["ev"] == "Reset" {
+                wemit(&rec);
+            }
+        }
         writeln!(self.out, "{}", rec).expect("write trace");
         self.lines += 1;
     }
@@ -107,11 +164,31 @@ impl Sim {
         args: Value,
         f: F,
     ) -> bool {
+        let wl = wlog_on();
+        if wl {
+            let c = self.client.as_ref().unwrap();
+            *WCTX.lock().unwrap() = Some(WCtx { storage: c.storage.clone(), peers: Arc::clone(&c.peers), chain: &self.chain, log: Vec::new() });
+        }
         let res = f(self.client.as_mut().unwrap());
+        // (dropping the context releases its handle of the store before any restart)
+        let wlog = if wl { WCTX.lock().unwrap().take().map(|c| c.log).unwrap_or_default() } else { Vec::new() };
         let out = self.collect_out();
         match res {
             Ok(()) => {
-                let rec = json!({"ev": ev, "a": args, "st": self.state(), "out": out});
+                let st = self.state();
+                if !wlog.is_empty() {
+                    // state after write k = state seen before write k + 1; after the last one: the event's post-state
+                    let labels: Vec<&str> = wlog.iter().map(|(l, _, _)| l.as_str()).collect();
+                    wemit(&json!({"ev": "WBegin", "op": ev, "a": args, "labels": labels, "st": self.last_state, "post": st,
+                        "out": out, "sc": self.scenario}));
+                    let n = wlog.len();
+                    for k in 0..n {
+                        let after = if k + 1 < n { wlog[k + 1].2.clone() } else { st.clone() };
+                        wemit(&json!({"ev": "W", "op": ev, "a": args, "k": k + 1, "n": n, "label": wlog[k].0, "locked": wlog[k].1,
+                            "labels": labels, "st": after, "post": if k + 1 == n { json!(true) } else { json!(false) }, "sc": self.scenario}));
+                    }
+                }
+                let rec = json!({"ev": ev, "a": args, "st": st, "out": out});
                 self.emit(rec);
                 true
             }
@@ -279,6 +356,7 @@ pub fn new_sim(
         last_bans: Vec::new(),
         crashed: false,
         dead: false,
+        last_state: Value::Null,
     }
 }
 
